@@ -60,6 +60,14 @@ func (f *Func) Redefine(opts ...Arg) (*Func, error) {
 		hasErr = false
 	}
 
+	// reflect can't create a function type with more than 128 parameters
+	// and results together (it panics); we need one parameter and possibly
+	// one more result than the original function has.
+	if 1+len(out) > 128 {
+		return nil, fmt.Errorf(
+			"function has too many results to be redefined (%d)", f.fn.Type().NumOut())
+	}
+
 	// Build our function type and implementation.
 	fnType := reflect.FuncOf([]reflect.Type{inputStruct}, out, false)
 	fn := reflect.MakeFunc(fnType, func(args []reflect.Value) []reflect.Value {
